@@ -3,7 +3,9 @@
    Models: Search.v (transcriptions of SolverWrapper.get_model_status, AbstractPathModelDAG /
    AbstractWalkModelDiGraph.solve + getters, MinGenSet / MinFlowDecomp / MinFlowDecompCycles /
    MinPathCover / MinPathCoverCycles / NumPathsOptimization.solve).  Switches of the faithful
-   model: mgs_skips (DESIGN §6 #14) and exit_on_fail (#15); [true] = the code as it stands.
+   model: mgs_skips (DESIGN §6 #14, repaired in /repo 03febc7), exit_on_fail (#15, repaired in 78680dc)
+   and upper_excl (#1, repaired in 67a34b1); [true] = the pinned tree, [false] = the code as it stands now.
+   The _refuted theorems about the switch-on models are kept as documentation of the old behaviour.
 
    Reading guide.  An outcome sequence [sts] has one entry per call of SolverWrapper.optimize in
    the order the implementation makes them; [used o] entries are consumed, the first [aux o] of
@@ -103,7 +105,7 @@ Definition C13_mgs_full_statement (mgs_skips : bool) : Prop :=
   forall lb n sts p, inconclusive_at sts p -> p < used (mgs_solve mgs_skips lb n sts) ->
                      so_res (mgs_solve mgs_skips lb n sts) = NotSolved.
 
-(* the code as it stands violates it (finding C13 / mgs_skips_inconclusive) *)
+(* the loop before /repo 03febc7 violated it (finding C13 / mgs_skips_inconclusive, fixed) *)
 Theorem C13_mgs_refuted :
   exists lb n sts p k,
     inconclusive_at sts p /\ p < used (mgs_solve true lb n sts) /\
@@ -118,15 +120,15 @@ Theorem C13_mgs_refuted_custom_timeout :
 Proof. exact mgs_refuted_custom_timeout. Qed.
 Print Assumptions C13_mgs_refuted_custom_timeout.
 
-(* what the code as it stands still guarantees: the answer itself was proven optimal *)
+(* true with either switch: the answer itself was proven optimal *)
 Theorem C13_mgs_faithful_final_optimal : forall b lb n sts k,
   so_res (mgs_solve b lb n sts) = Solved k ->
-  lb <= k < Nat.max (lb + 1) n /\ 0 < used (mgs_solve b lb n sts) /\
+  lb <= k < mgs_upper lb n /\ 0 < used (mgs_solve b lb n sts) /\
   exists x, nth_error sts (used (mgs_solve b lb n sts) - 1) = Some x /\ status_of x = Optimal.
 Proof. exact mgs_faithful_final_optimal. Qed.
 Print Assumptions C13_mgs_faithful_final_optimal.
 
-(* corrected model (switch off = proposed_fixes/mingenset_stop_on_inconclusive.diff) *)
+(* the code as it stands now (switch off, /repo 03febc7) *)
 Theorem C13_mgs_search_inconclusive : C13_mgs_full_statement false.
 Proof. exact mgs_search_inconclusive. Qed.
 Print Assumptions C13_mgs_search_inconclusive.
@@ -139,7 +141,7 @@ Print Assumptions C13_mgs_search_inconclusive_first.
 
 Theorem C13_mgs_search_sound : forall lb n sts k,
   so_res (mgs_solve false lb n sts) = Solved k ->
-  lb <= k < Nat.max (lb + 1) n /\
+  lb <= k < mgs_upper lb n /\
   map status_of (firstn (used (mgs_solve false lb n sts)) sts) = repeat Infeasible (k - lb) ++ [Optimal].
 Proof. exact mgs_search_sound. Qed.
 Print Assumptions C13_mgs_search_sound.
